@@ -743,8 +743,42 @@ func genIntEdgeGrid(p func(string, ...any)) {
 	}
 }
 
+// labels wrapped in a tag — in particular the self-described CBOR tag 55799, which the CBOR library
+// strips silently — are not integer or text items: refused in every bucket of every layer
+func genTaggedLabelGrid(p func(string, ...any)) {
+	payload := []byte{0x50}
+	for _, tag := range []uint64{55799, 1, 2, 100} {
+		for _, lbl := range []*W{wInt(1), wInt(4), wInt(99), wInt(-1), wTstr("a")} {
+			val := wInt(-7)
+			if lbl.M == 0 && lbl.N == 4 {
+				val = wBstr([]byte{0x31})
+			}
+			prot := wMap(wTag(tag, lbl.clone()), val.clone())
+			protAlg := wMap(wInt(1), wInt(-7), wTag(tag, lbl.clone()), val.clone())
+			um := wMap(wTag(tag, lbl.clone()), val.clone())
+			p("dec ph %s", hexs(wBstr(prot.enc()).enc()))
+			p("dec ph %s", hexs(wBstr(protAlg.enc()).enc()))
+			p("dec uh %s", hexs(um.enc()))
+			sigB := wBstr([]byte{1})
+			p("dec s1 %s", hexs(wTag(18, wArr(wBstr(prot.enc()), wMap(), wBstr(payload), sigB)).enc()))
+			p("dec s1u %s", hexs(wArr(wBstr(protAlg.enc()), wMap(), wBstr(payload), sigB.clone()).enc()))
+			p("dec sig %s", hexs(wArr(wBstr(prot.enc()), wMap(), sigB.clone()).enc()))
+			p("dec csig %s", hexs(wArr(wBstr(protAlg.enc()), wMap(), sigB.clone()).enc()))
+			sg := wArr(wBstr(prot.enc()), wMap(), sigB.clone())
+			p("dec sm %s", hexs(wTag(98, wArr(wBstr([]byte{}), wMap(), wBstr(payload), wArr(sg))).enc()))
+			p("dec sm %s", hexs(wTag(98, wArr(wBstr(protAlg.enc()), wMap(), wBstr(payload), wArr(wArr(wBstr(wMap(wInt(1), wInt(-7)).enc()), wMap(), sigB.clone())))).enc()))
+			// inside a countersignature nested in an unprotected bucket (its protected bucket allows tags in VALUES only)
+			cs := wArr(wBstr(prot.enc()), wMap(), sigB.clone())
+			p("dec s1 %s", hexs(wTag(18, wArr(wBstr(wMap(wInt(1), wInt(-7)).enc()), wMap(wInt(11), cs), wBstr(payload), sigB.clone())).enc()))
+			p("dec s1 %s", hexs(wTag(18, wArr(wBstr(wMap(wInt(1), wInt(-7)).enc()), wMap(wInt(7), wArr(cs.clone(), cs.clone())), wBstr(payload), sigB.clone())).enc()))
+			p("dec key %s", hexs(wMap(wInt(1), wInt(4), wTag(tag, lbl.clone()), val.clone(), wInt(-1), wBstr([]byte{1})).enc()))
+		}
+	}
+}
+
 func genTbsGrid(p func(string, ...any)) {
 	genTagGrid(p)
+	genTaggedLabelGrid(p)
 	genIntTextGrid(p)
 	genIntEdgeGrid(p)
 	targets := []int{0, 1, 22, 23, 24, 25, 254, 255, 256, 257, 65535, 65536}
